@@ -23,6 +23,13 @@ RULE = ("ConcurrentTestSuite and ConcurrentStreamTestSuite are run with 1..4 gen
         "worker's order (route code + timestamp for streams, contiguous blocks for the classic suite), broken runners "
         "reported, on abort the exception propagates and started workers read shouldStop == True afterwards, no "
         "deadlock. Also: sub-suites that compare equal or are unhashable, shared and absent route codes with events carrying their own route code, tags / times / runnable of delivered events, an interrupt in the calling thread while it waits for its workers, a second run of either suite, pre-emptions continuing after the explicit schedule. "
+        "Also: an interrupt while the calling thread starts its (k+1)-th worker (the thread running) or Thread.start failing before there "
+        "is a thread; without an abort (and without a failfast caller) no worker ever reads shouldStop == True and the caller's result is "
+        "not stopped; the empty string as a worker's route code and as the route code an event carries; a test whose events are "
+        "attachments (binary, empty, text; eof / mime_type / file_bytes compared field by field), an attachment without test id and an "
+        "'exists' entry; the broken-runner report mentions the runner's own error; make_tests called (classic) with a suite holding "
+        "the constructor's suite, (stream) without arguments; timeouts handed to join / acquire / get are honoured by the fakes. A small "
+        "complete grid (abort sites x workers x schedules, route codes x own route codes, fault-free runs with failures) backs the rare ones. "
         "Non-trivial: >= 2 context switches between workers, or a fault; distinct = distinct spec.")
 ASSUMPTIONS = [
     "instrumentation by rebinding testtools.testsuite.threading / Queue (vacuity guard: exit 2 if no fake thread was created)",
@@ -31,6 +38,23 @@ ASSUMPTIONS = [
     "the outcome - that the test is closed before another one is opened",
     "aborts are injected both as Exception and as non-Exception errors (an interrupt)",
     "after an abort the harness lets the remaining workers run to completion to observe what they read",
+    "a runner that dies of a non-Exception error (SystemExit-like) may be reported as a broken runner or not (the statement "
+    "says 'raises'; today it is not, DESIGN 11.2): both counts are accepted",
+    "a suite may collect make_tests completely before it starts a thread: a run that asks the harness's *lazy* iterator for "
+    "the second sub-suite before any thread exists is not judged (no deadlock verdict), and when make_tests raises before "
+    "any thread was started nothing is required to have run; a suite that starts threads as it goes (today's) is held to "
+    "'every sub-suite yielded before the failure ran once'",
+    "'the caller's result raised' / 'the calling thread was interrupted' is known from the harness raising, not from call "
+    "counts; the stream fault strikes the k-th status() call, other calls on the caller's stream result are let through",
+    "the fake threading module models Thread (name, daemon, ident, is_alive, run, timed join), Semaphore / BoundedSemaphore / "
+    "Lock (timed and non-blocking acquire), Event, current_thread; Queue models maxsize, get/put with block= and timeout=, "
+    "*_nowait, qsize, full.  A timed wait: the first two per case that find their condition false time out at once, later "
+    "ones time out when no other thread can run (virtual time).  Any other attribute of threading is a harness error (exit 2), "
+    "not a violation",
+    "a worker's events are recognised by test ids 'w<i>.*' (id-less attachments by file names 'w<i>.*'); no attachment is "
+    "called 'reason' (DESIGN 11.2: a non-text 'reason' makes StreamSummary._skip raise inside the worker)",
+    "make_tests(ConcurrentTestSuite) and make_tests(the suite given to the constructor) are both accepted (the docstring "
+    "says 'a suite')",
 ]
 
 
@@ -49,7 +73,8 @@ class Interrupt(BaseException):
 FAULTS = (Fault, Interrupt)
 
 
-KINDS = list(H.KINDS) + ["raw"]
+KINDS = list(H.KINDS) + ["raw", "attach"]
+STREAM_ONLY = ("raw", "attach", "flood")
 WORKER = st.fixed_dictionaries({
     "tests": st.lists(st.sampled_from(KINDS), max_size=3),
     "raise_after": st.one_of(st.none(), st.none(), st.none(), st.integers(0, 3)),
@@ -63,16 +88,22 @@ def s_case(draw):
     workers = draw(st.lists(WORKER, min_size=1, max_size=4))
     if suite == "classic":
         for w in workers:
-            w["tests"] = [k if k != "raw" else "success" for k in w["tests"]]
+            w["tests"] = [k if k not in STREAM_ONLY else "success" for k in w["tests"]]
     fault = draw(st.one_of(st.none(), st.none(),
                            st.builds(lambda k, b: {"at": "make_tests", "k": k, "base": b}, st.integers(0, 4), st.booleans()),
                            st.builds(lambda k, b: {"at": "result", "k": k, "base": b}, st.integers(0, 12), st.booleans()),
                            # the calling thread is interrupted while it waits for its workers (where a real Ctrl-C lands)
-                           st.builds(lambda k: {"at": "main_wait", "k": k, "base": True}, st.integers(0, 6))))
+                           st.builds(lambda k: {"at": "main_wait", "k": k, "base": True}, st.integers(0, 6)),
+                           # ... or while it starts its (k+1)-th worker: Thread.start() waits for the new thread, so an
+                           # interrupt lands there with the thread running (started=True); started=False is start()
+                           # failing before there is a thread ("can't start new thread")
+                           st.builds(lambda k, started: {"at": "thread_start", "k": k, "base": started, "started": started},
+                                     st.integers(0, 3), st.booleans())))
     return {"suite": suite, "workers": workers, "fault": fault, "wrap_result": draw(st.sampled_from([False, True, "own_stop"])),
             "second_run": draw(st.booleans()),
             "eq_mode": draw(st.sampled_from(["identity", "identity", "all-equal", "unhashable"])),    # how the sub-suites compare / hash
-            "routes": draw(st.sampled_from(["distinct", "distinct", "none", "shared"])),              # (stream) the workers' route codes
+            "routes": draw(st.sampled_from(["distinct", "distinct", "none", "shared", "empty"])),     # (stream) the workers' route codes
+            "own_route": draw(st.sampled_from(["sub", "sub", ""])),    # (stream, routes != distinct) the route code raw events carry themselves
             "lazy": draw(st.sampled_from([False, False, True])),       # make_tests yields the next sub-suite only once the earlier ones are done
             "failfast": draw(st.sampled_from([False, False, False, True])),   # (classic) the caller's result stops at the first failure
             "tail": draw(st.one_of(st.none(), st.fixed_dictionaries({"seed": st.integers(0, 1 << 20), "p": st.sampled_from([2, 4, 8])}))),       # pre-emptions after the explicit schedule is used up
@@ -85,29 +116,164 @@ def execute(spec, schedule=None):
     vs = []
     sched = S.Scheduler(spec["schedule"] if schedule is None else schedule, tail=spec.get("tail") if schedule is None else None)
     stream = spec["suite"] == "stream"
-    state = {"aborted": False, "threads": 0, "main_done": False, "run_exc": None, "calls": 0, "started": set()}
+    state = {"aborted": False, "threads": 0, "main_done": False, "run_exc": None, "calls": 0, "started": set(),
+             "status_calls": 0, "fault_raised": False, "mt_args": []}
+    routes = spec.get("routes", "distinct")
+    own_route = spec.get("own_route", "sub")
+
+    def raise_fault(msg, base=None):
+        f = spec["fault"]
+        state["fault_raised"] = True
+        raise (Interrupt if (f.get("base") if base is None else base) else Fault)(msg)
+
+    def timed_wait(label, cond):
+        """A wait with a timeout.  The first two of a case that find their condition false time out at once (a timeout
+        can be shorter than whatever the other threads are doing); later ones wait in virtual time: until the condition
+        holds, or - the timeout - until nothing else can happen (every other thread finished or blocked), so that a
+        polling loop makes progress instead of spinning.  Returns whether the condition holds."""
+        me = S.current_task()
+        if me is None:
+            return cond()
+        if state.setdefault("early_timeouts", 0) < 2:
+            sched.yield_point(label + ".early")
+            if cond():
+                return True
+            state["early_timeouts"] += 1
+            return False
+        me.timed = cond
+
+        def pred():
+            if cond():
+                return True
+            for t in sched.tasks:
+                if t is me or t.done:
+                    continue
+                other = getattr(t, "timed", None)
+                if other is not None:
+                    if other():
+                        return False        # another timed waiter that can go on
+                    continue                # ... or that is as stuck as this one
+                if t.pred is None or t.pred():
+                    return False
+            return True
+        try:
+            sched.yield_point(label, pred=pred)
+        finally:
+            me.timed = None
+        return cond()
     worker_log = []        # (wid, what, ...)
     caller_log = []        # (task tid, name, payload)
     sems = []
 
     class FakeThread:
-        def __init__(self, target=None, args=(), kwargs=None, **kw):
+        def __init__(self, group=None, target=None, name=None, args=(), kwargs=None, daemon=None):
             self.target, self.args, self.kwargs = target, args, kwargs or {}
             self.task = None
+            self.number = state["threads"]
             state["threads"] += 1
+            if not state.get("second_phase"):
+                state["threads_first"] = state.get("threads_first", 0) + 1
+            self.name = name or "Thread-%d" % (self.number + 1)
+            self.daemon = bool(daemon)
+            self.ident = self.native_id = None
+
+        def run(self):
+            if self.target is not None:
+                self.target(*self.args, **self.kwargs)
 
         def start(self):
-            self.task = sched.spawn(lambda: self.target(*self.args, **self.kwargs), "W%d" % state["threads"])
+            if self.task is not None:
+                raise RuntimeError("threads can only be started once")
+            f = spec["fault"]
+            strike = bool(f and f["at"] == "thread_start" and f["k"] == self.number and not state.get("second_phase"))
+            if strike and not f.get("started"):
+                sched.yield_point("thread.start")
+                raise_fault("thread %d could not be started" % self.number)
+            self.task = sched.spawn(self.run, "W%d" % (self.number + 1))
+            self.ident = self.native_id = 1000 + self.number
             sched.yield_point("thread.start")
+            if strike:
+                raise_fault("the calling thread was interrupted while it started thread %d" % self.number)
 
         def join(self, timeout=None):
-            sched.yield_point("thread.join", pred=lambda: self.task is None or self.task.done)
+            if self.task is None:
+                raise RuntimeError("cannot join thread before it is started")
+            if timeout is None:
+                sched.yield_point("thread.join", pred=lambda: self.task.done)
+            else:
+                timed_wait("thread.join.timed", lambda: self.task.done)
+
+        def is_alive(self):
+            return self.task is not None and not self.task.done
+
+        def getName(self):
+            return self.name
+
+        def setName(self, name):
+            self.name = name
+
+        def isDaemon(self):
+            return self.daemon
+
+        def setDaemon(self, daemonic):
+            self.daemon = daemonic
+
+    class Semaphore(S.FakeSemaphore):
+        """vp.sched's semaphore, plus the timeout it accepts (virtual time, see timed_wait) and locked()."""
+
+        def acquire(self, blocking=True, timeout=None):
+            if blocking and timeout is not None and timeout >= 0:
+                if not timed_wait("sem.acquire.timed", lambda: self.count > 0):
+                    return False
+                self.count -= 1
+                self.min_seen = min(self.min_seen, self.count)
+                self.holder = S.current_task()
+                return True
+            return S.FakeSemaphore.acquire(self, blocking)
+        __enter__ = acquire
+
+        def locked(self):
+            return self.count <= 0
 
     def fake_semaphore(value=1):
-        s = S.FakeSemaphore(sched, value)
+        s = Semaphore(sched, value)
         sems.append(s)
         return s
-    fake_threading = types.SimpleNamespace(Thread=FakeThread, Semaphore=fake_semaphore)
+
+    class FakeEvent:
+        def __init__(self):
+            self.flag = False
+
+        def is_set(self):
+            return self.flag
+        isSet = is_set
+
+        def set(self):
+            self.flag = True
+            sched.yield_point("event.set")
+
+        def clear(self):
+            self.flag = False
+
+        def wait(self, timeout=None):
+            if timeout is None:
+                sched.yield_point("event.wait", pred=lambda: self.flag)
+                return True
+            return timed_wait("event.wait.timed", lambda: self.flag)
+
+    def current_thread():
+        t = S.current_task()
+        return types.SimpleNamespace(name=t.name if t else "MainThread", ident=t.tid if t else 0, daemon=False, is_alive=lambda: True)
+    # the whole of `threading` a suite can reasonably use; anything else (Condition, Timer, Barrier ..) is an
+    # AttributeError in the calling thread, which execute() reports as a harness error, not as a violation
+    class FakeThreading(types.SimpleNamespace):
+        def __getattr__(self, name):
+            state.setdefault("unmodelled", "threading." + name)
+            raise AttributeError(name)
+    fake_threading = FakeThreading(Thread=FakeThread, Semaphore=fake_semaphore, BoundedSemaphore=fake_semaphore,
+                                   Lock=lambda: Semaphore(sched, 1), Event=FakeEvent,
+                                   current_thread=current_thread, main_thread=current_thread,
+                                   get_ident=lambda: current_thread().ident)
 
     class Caller:
         """The caller's result: records, yields before every call, may raise at event k."""
@@ -129,8 +295,14 @@ def execute(spec, schedule=None):
                 t = S.current_task()
                 caller_log.append((t.tid if t else None, name, a, kw, n))
                 f = spec["fault"]
-                if f and f["at"] == "result" and (name == "status" or not stream) and n == f["k"]:
-                    raise (Interrupt if f.get("base") else Fault)("caller's result raised at event %d" % n)
+                if stream:
+                    # the stream fault strikes the k-th status() call, whatever else the suite calls on the result
+                    if name != "status":
+                        return attr(*a, **kw)
+                    n = state["status_calls"]
+                    state["status_calls"] += 1
+                if f and f["at"] == "result" and n == f["k"]:
+                    raise_fault("caller's result raised at event %d" % n)
                 return attr(*a, **kw)
             return call
     caller = Caller()
@@ -174,10 +346,14 @@ def execute(spec, schedule=None):
                     raise (RunnerDied if self.w.get("base") else RuntimeError)("runner %d broke" % self.wid)
                 tid = "w%d.t%d" % (self.wid, i)
                 worker_log.append((self.wid, "test", tid, kind))
-                if kind == "raw" and spec.get("routes", "distinct") != "distinct":
-                    # an event that already carries a route code of its own (a nested stream)
-                    result.status(test_id=tid, test_status="inprogress", route_code="sub", timestamp=None)
-                    result.status(test_id=tid, test_status="success", route_code="sub", runnable=False)
+                if kind == "raw" and routes != "distinct":
+                    # an event that already carries a route code of its own (a nested stream); "" is a string too
+                    result.status(test_id=tid, test_status="inprogress", route_code=own_route, timestamp=None)
+                    result.status(test_id=tid, test_status="success", route_code=own_route, runnable=False)
+                elif kind == "attach":
+                    # attachments whose every field matters, and events that belong to no test
+                    for kw in attach_events(self.wid, i):
+                        result.status(**kw)
                 elif kind == "flood":
                     # one test with hundreds of attachment chunks
                     result.status(test_id=tid, test_status="inprogress")
@@ -200,9 +376,13 @@ def execute(spec, schedule=None):
     workers = [Worker(i, w) for i, w in enumerate(spec["workers"])]
 
     def route_of(i):
-        return {"distinct": "r%d" % i, "none": None, "shared": "r"}[spec.get("routes", "distinct")]
+        return {"distinct": "r%d" % i, "none": None, "shared": "r", "empty": ""}[routes]
 
-    def make_tests(*a):
+    def make_tests(*a, **kw):
+        state["mt_args"].append((a, kw))
+        return sub_suites()
+
+    def sub_suites():
         f = spec["fault"]
         for i, w in enumerate(workers):
             if spec.get("lazy"):
@@ -211,11 +391,11 @@ def execute(spec, schedule=None):
             else:
                 sched.yield_point("make_tests.next")
             if f and f["at"] == "make_tests" and f["k"] == i:
-                raise (Interrupt if f.get("base") else Fault)("make_tests raised after %d sub-suites" % i)
+                raise_fault("make_tests raised after %d sub-suites" % i)
             yield (w, route_of(i)) if stream else w
         if f and f["at"] == "make_tests" and f["k"] >= len(workers):
             sched.yield_point("make_tests.next")
-            raise (Interrupt if f.get("base") else Fault)("make_tests raised after all sub-suites")
+            raise_fault("make_tests raised after all sub-suites")
 
     wrapped = []
 
@@ -248,7 +428,7 @@ def execute(spec, schedule=None):
                 suite = ts.ConcurrentStreamTestSuite(make_tests)
             else:
                 import unittest
-                suite = ts.ConcurrentTestSuite(unittest.TestSuite(), make_tests, wrap_result if spec["wrap_result"] else None)
+                suite = ts.ConcurrentTestSuite(unittest.TestSuite([testtools.PlaceHolder("c13.marker")]), make_tests, wrap_result if spec["wrap_result"] else None)
             try:
                 try:
                     suite.run(caller)
@@ -310,7 +490,7 @@ def execute(spec, schedule=None):
         """The queue the calling thread waits on: the k-th get() can be hit by an interrupt."""
         gets = 0
 
-        def get(self, *a, **kw):
+        def get(self, block=True, timeout=None):
             f = spec["fault"]
             t = S.current_task()
             if f and f["at"] == "main_wait" and t is not None and t.name == "main" and not state.get("second_phase"):
@@ -318,33 +498,82 @@ def execute(spec, schedule=None):
                 WaitQueue.gets += 1
                 if n == f["k"]:
                     sched.yield_point("main.interrupted")
-                    raise Interrupt("the calling thread was interrupted in its %d-th wait" % n)
-            return S.FakeQueue.get(self)
+                    raise_fault("the calling thread was interrupted in its %d-th wait" % n)
+            if block and timeout is None:
+                return S.FakeQueue.get(self)
+            # get(False) / get(timeout=..): Empty when nothing arrives (in virtual time, see timed_wait)
+            if not block:
+                sched.yield_point("queue.get_nowait")
+            elif not timed_wait("queue.get.timed", lambda: bool(self.items)):
+                pass
+            if not self.items:
+                raise real_queue.Empty()
+            return self.items.pop(0)
+
+        def get_nowait(self):
+            return self.get(False)
+
+        def put(self, item, block=True, timeout=None):
+            bounded = bool(self.maxsize and self.maxsize > 0)
+            if bounded and not block:
+                sched.yield_point("queue.put_nowait")
+                if len(self.items) >= self.maxsize:
+                    raise real_queue.Full()
+            elif bounded and timeout is not None:
+                if not timed_wait("queue.put.timed", lambda: len(self.items) < self.maxsize):
+                    raise real_queue.Full()
+            else:
+                return S.FakeQueue.put(self, item)
+            self.items.append(item)
+            sched.yield_point("queue.put.done")
+
+        def put_nowait(self, item):
+            return self.put(item, False)
+
+        def qsize(self):
+            return len(self.items)
+
+        def full(self):
+            return bool(self.maxsize and self.maxsize > 0 and len(self.items) >= self.maxsize)
     ts.Queue = lambda maxsize=0: WaitQueue(sched, maxsize)
     try:
         sched.spawn(main, "main")
         try:
             sched.run()
         except S.Deadlock as d:
+            if spec.get("lazy") and not state.get("threads_first") and [b[0] for b in d.blocked] == ["main"] and d.blocked[0][1] == "make_tests.next":
+                # the suite asked for the second sub-suite before it started the first: it collects make_tests
+                # completely before running anything, which the statement allows; the harness's lazy iterator
+                # (next sub-suite only once the earlier ones have run) has nothing to say about such a suite
+                return [], {"switches": 0, "fault_fired": False, "threads": 0, "decisions": len(sched.decisions), "collects_first": True}, sched.decisions
             vs.append(V("deadlock", "fault" if spec["fault"] else "plain", "no thread can run: %r (fault %r)" % (d.blocked, spec["fault"])))
     finally:
         ts.threading, ts.Queue = saved
+    if state.get("unmodelled"):
+        raise HarnessError("testtools.testsuite reaches for %s, which the harness does not model" % state["unmodelled"])
     for t in sched.tasks:
         if t.error is not None and not isinstance(t.error, FAULTS + (RunnerDied,)):
             if t.name == "main":
                 raise HarnessError("main task raised %r" % (t.error,))
             # a worker thread died with an exception that _run_test did not contain
             vs.append(V("worker-thread-died", type(t.error).__name__, "worker thread %s ended with %r" % (t.name, t.error)))
-    if workers and state["threads"] == 0 and not (spec["fault"] and spec["fault"]["at"] == "make_tests" and spec["fault"]["k"] == 0):
-        raise HarnessError("instrumentation no longer binds: no fake thread was created")
     fault = spec["fault"]
-    fault_fired = isinstance(state["run_exc"], FAULTS) or (fault and fault["at"] == "result" and state["calls"] > fault["k"])
-    if fault and fault["at"] == "main_wait" and isinstance(state["run_exc"], FAULTS):
-        fault_fired = True
+    # (a make_tests that raised may have done so before the suite started anything: a suite may collect first)
+    if workers and not state.get("threads_first") and not (fault and fault["at"] == "make_tests" and (fault["k"] == 0 or state["fault_raised"])):
+        raise HarnessError("instrumentation no longer binds: no fake thread was created")
+    # the fault fired iff the harness raised it (not: "call number k was made" - calls that cannot raise are calls too)
+    fault_fired = bool(state["fault_raised"])
     classic_result_fault = bool(fault and fault["at"] == "result" and not stream)
+    main_thread_fault = bool(fault and (fault["at"] in ("make_tests", "main_wait", "thread_start") or fault["at"] == "result" and stream))
 
     # 1. every yielded worker ran exactly once, in its own thread
-    n_yielded = len(workers) if not (fault and fault["at"] == "make_tests") else min(fault["k"], len(workers))
+    n_yielded = len(workers)
+    if fault and fault["at"] == "make_tests":
+        n_yielded = min(fault["k"], len(workers))
+        if fault_fired and not state.get("threads_first"):
+            n_yielded = 0       # collected first, make_tests failed: nothing was started, nothing needs running or stopping
+    if fault and fault["at"] == "thread_start" and fault_fired:
+        n_yielded = fault["k"] + (1 if fault.get("started") else 0)
     if not any(v.clause == "deadlock" for v in vs):
         for w in workers[:n_yielded]:
             if w.runs != 1:
@@ -356,10 +585,10 @@ def execute(spec, schedule=None):
         if state["run_exc"] is None and state.get("unfinished_at_return"):
             vs.append(V("join", "returned-early", "run() returned while %r were still running" % state["unfinished_at_return"]))
         # abort: exception propagates
-        if fault_fired and fault["at"] == "make_tests" and not isinstance(state["run_exc"], FAULTS):
-            vs.append(V("abort", "not-propagated", "make_tests raised but run() %s" % ("returned" if state["run_exc"] is None else "raised %r" % state["run_exc"])))
-        if fault and fault["at"] == "result" and stream and state["calls"] > fault["k"] and not isinstance(state["run_exc"], FAULTS):
-            vs.append(V("abort", "not-propagated", "the caller's result raised but run() %s" % ("returned" if state["run_exc"] is None else "raised %r" % state["run_exc"])))
+        if fault_fired and main_thread_fault and not isinstance(state["run_exc"], FAULTS):
+            what = {"make_tests": "make_tests raised", "result": "the caller's result raised", "main_wait": "the calling thread was interrupted while waiting",
+                    "thread_start": "the calling thread was interrupted (or failed) while starting a worker"}[fault["at"]]
+            vs.append(V("abort", "not-propagated", "%s but run() %s" % (what, "returned" if state["run_exc"] is None else "raised %r" % state["run_exc"])))
         if state["run_exc"] is not None and not isinstance(state["run_exc"], FAULTS):
             vs.append(V("run-raises", type(state["run_exc"]).__name__, "run() raised %r" % (state["run_exc"],)))
         # abort: started workers see shouldStop afterwards
@@ -368,24 +597,54 @@ def execute(spec, schedule=None):
                 if e[1] == "shouldStop" and e[3] and not e[2] and e[0] != 90:       # (worker 90 belongs to the later, fault-free run)
                     vs.append(V("abort", "stop-lost-%s" % spec["suite"], "worker %d read shouldStop == False after run() had been aborted" % e[0]))
                     break
+        # nobody aborted run() (and the caller's own result did not ask to stop): no worker is told to stop
+        if state["run_exc"] is None and not fault_fired and not (not stream and spec.get("failfast")):
+            if not stream and caller.inner.shouldStop:
+                vs.append(V("spurious-stop", "caller-stopped", "the caller's result (not failfast) was told to stop although run() was not aborted"))
+            for e in worker_log:
+                if e[1] == "shouldStop" and e[2] and e[0] != 90:
+                    vs.append(V("spurious-stop", spec["suite"], "worker %d read shouldStop == True although run() was not aborted (fault %r) and the caller's "
+                                "result did not stop" % (e[0], fault)))
+                    break
+        # what make_tests is called with: (classic) one suite that holds the suite given to the constructor -
+        # the ConcurrentTestSuite itself or that suite; (stream) with nothing
+        # (how often it is called is not judged: sub-suites run twice are caught by run-once; the second run has a
+        # make_tests of its own)
+        for a, kw in state["mt_args"][:1]:
+            if stream and (a or kw):
+                vs.append(V("make_tests", "stream-args", "ConcurrentStreamTestSuite called make_tests with %r %r" % (a, kw)))
+            if not stream:
+                held = None
+                if len(a) == 1 and not kw:
+                    try:
+                        held = [getattr(t, "id", lambda: None)() for t in _leaves(a[0])]
+                    except Exception as e:
+                        held = repr(e)
+                if held != ["c13.marker"]:
+                    vs.append(V("make_tests", "classic-args", "ConcurrentTestSuite called make_tests with %r %r (tests inside: %r); expected the suite" % (a, kw, held)))
     # 3. delivery
-    if state["run_exc"] is None and not vs and not classic_result_fault:
+    # (the classic result fault strikes inside a worker; if it never struck, the run is an ordinary one)
+    if state["run_exc"] is None and not vs and not (classic_result_fault and fault_fired):
+        n_base = sum(1 for e in worker_log if e[1] == "raised" and e[2])     # runners that died of a non-Exception error: reported or not
         for w in workers:
             ran = [e for e in worker_log if e[0] == w.wid and e[1] == "test"]
             broke = any(e[0] == w.wid and e[1] == "raised" and not e[2] for e in worker_log)
+            broke_base = any(e[0] == w.wid and e[1] == "raised" and e[2] for e in worker_log)
             if stream:
                 code = route_of(w.wid)
                 # a worker's events are known by their test ids (route codes may be shared or absent)
+                # (events without a test id by the name of their file)
                 mine = [s for s in caller.inner.statuses() if (s["test_id"] or "").startswith("w%d." % w.wid) or
-                        (s["test_id"] or "") == "broken-runner-%r" % (code,) and spec.get("routes", "distinct") == "distinct"]
+                        s["test_id"] is None and (s["file_name"] or "").startswith("w%d." % w.wid) or
+                        (s["test_id"] or "") == "broken-runner-%r" % (code,) and routes == "distinct"]
                 if any(s["timestamp"] is None or s["timestamp"].tzinfo is None for s in mine):
                     vs.append(V("delivery", "no-timestamp", "an event of worker %d reached the caller without an (aware) timestamp" % w.wid))
                 for s in mine:
-                    own = "sub" if s["test_id"].startswith("w") and any(e[0] == w.wid and e[1] == "test" and e[2] == s["test_id"] and e[3] == "raw" for e in worker_log) \
-                        and spec.get("routes", "distinct") != "distinct" else None
+                    own = own_route if (s["test_id"] or "").startswith("w") and any(e[0] == w.wid and e[1] == "test" and e[2] == s["test_id"] and e[3] == "raw" for e in worker_log) \
+                        and routes != "distinct" else None
                     want_code = code if own is None else (own if code is None else code + "/" + own)
                     if s["route_code"] != want_code:
-                        vs.append(V("delivery", "route-code", "event %r of worker %d arrived with route code %r, expected %r" % (s["test_id"], w.wid, s["route_code"], want_code)))
+                        vs.append(V("delivery", "route-code", "event %r of worker %d arrived with route code %r, expected %r" % (s["test_id"] or s["file_name"], w.wid, s["route_code"], want_code)))
                         break
                 for e in ran:
                     if e[3] in H.METHOD:        # a PlaceHolder with known tags and times
@@ -397,13 +656,24 @@ def execute(spec, schedule=None):
                         if fin and fin[0]["timestamp"] != H.ts(100 * w.wid + 2 * i_ + 1) or first and first[0]["timestamp"] != H.ts(100 * w.wid + 2 * i_):
                             vs.append(V("delivery", "stream-time", "%s arrived with timestamps %r / %r, its own are %r / %r" % (
                                 e[2], first and first[0]["timestamp"], fin and fin[0]["timestamp"], H.ts(100 * w.wid + 2 * i_), H.ts(100 * w.wid + 2 * i_ + 1))))
-                    if e[3] == "raw" and spec.get("routes", "distinct") != "distinct":
+                    if e[3] == "raw" and routes != "distinct":
                         fin = [s for s in mine if s["test_id"] == e[2] and s["test_status"] == "success"]
                         if fin and fin[0]["runnable"] is not False:
                             vs.append(V("delivery", "stream-field", "%s was sent with runnable=False and arrived with runnable=%r" % (e[2], fin[0]["runnable"])))
                 got = [(s["test_id"], s["test_status"]) for s in mine if s["file_name"] is None]
                 want = []
                 for e in ran:
+                    if e[3] == "attach":
+                        # every event of the test, every field of it, in order
+                        i_ = int(e[2].split(".t")[1])
+                        sent = [dict(dict({f: None for f in ATTACH_FIELDS}, eof=False, runnable=True), **kw) for kw in attach_events(w.wid, i_)]
+                        want += [(x["test_id"], x["test_status"]) for x in sent if x["file_name"] is None]
+                        sent = [tuple(x[f] for f in ATTACH_FIELDS) for x in sent]
+                        arrived = [tuple(x[f] for f in ATTACH_FIELDS) for x in mine
+                                   if (x["test_id"] or "").split(".listed")[0] == e[2] or x["test_id"] is None and x["file_name"].startswith(e[2] + ".")]
+                        if arrived != sent:
+                            vs.append(V("delivery", "stream-attach-fields", "worker %d sent %r %r, the caller received %r" % (w.wid, ATTACH_FIELDS, sent, arrived)))
+                        continue
                     want += [(e[2], "inprogress"), (e[2], "success" if e[3] in ("raw", "flood") else H_STATUS[e[3]])]
                     if e[3] == "flood":
                         nchunks = sum(1 for s in mine if s["test_id"] == e[2] and s["file_name"] == "f")
@@ -414,16 +684,23 @@ def execute(spec, schedule=None):
                 if got != want:
                     kind = "lost" if len(got) < len(want) else ("duplicated" if len(got) > len(want) else "reordered")
                     vs.append(V("delivery", "stream-" + kind, "worker %d emitted %r, caller received %r" % (w.wid, want, got)))
-                if spec.get("routes", "distinct") != "distinct":
+                if routes != "distinct":
                     # the broken-runner id is made from the route code, which these workers share: count them all
+                    # (a runner that died of a non-Exception error may be reported or not: the statement says "raises")
                     all_broken = [x for x in caller.inner.statuses() if (x["test_id"] or "").startswith("broken-runner") and x["test_status"] == "fail"]
                     n_broke = sum(1 for e in worker_log if e[1] == "raised" and not e[2])
-                    if len(all_broken) != n_broke and not any(v.bucket == "broken-runner:stream-count" for v in vs):
-                        vs.append(V("broken-runner", "stream-count", "%d workers raised from run(), %d broken-runner failures arrived" % (n_broke, len(all_broken))))
+                    if not n_broke <= len(all_broken) <= n_broke + n_base and not any(v.bucket == "broken-runner:stream-count" for v in vs):
+                        vs.append(V("broken-runner", "stream-count", "%d workers raised from run() (and %d died of a non-Exception error), %d broken-runner failures arrived" % (
+                            n_broke, n_base, len(all_broken))))
                 elif broke and not any(b[1] == "fail" for b in broken):
                     vs.append(V("broken-runner", "stream-not-reported", "worker %d raised from run() but no broken-runner failure arrived: %r" % (w.wid, broken)))
-                if not broke and broken and spec.get("routes", "distinct") == "distinct":
+                if not broke and not broke_base and broken and routes == "distinct":
                     vs.append(V("broken-runner", "stream-spurious", "broken-runner reported for a worker that did not break"))
+                if broke:
+                    # the report is about this runner's error, not about some error
+                    tb = b"".join(x["file_bytes"] or b"" for x in caller.inner.statuses() if (x["test_id"] or "").startswith("broken-runner") and x["file_name"] is not None)
+                    if ("runner %d broke" % w.wid).encode() not in tb and not any(v.bucket == "broken-runner:stream-traceback" for v in vs):
+                        vs.append(V("broken-runner", "stream-traceback", "worker %d raised RuntimeError('runner %d broke'); no attachment of a broken-runner report mentions it: %r" % (w.wid, w.wid, tb[-300:])))
             else:
                 evs = [e for e in caller.inner.events if e[0] in ("startTest", "stopTest") or e[0] in OUTCOMES]
                 mine = [(e[0], e[1].id()) for e in evs if e[1].id().startswith("w%d." % w.wid)]
@@ -463,8 +740,13 @@ def execute(spec, schedule=None):
                     break
             nbroke = sum(1 for e in worker_log if e[1] == "raised" and not e[2])
             got_broken = sum(1 for e in evs if e[0] == "addError" and e[1].id().startswith("broken-runner"))
-            if got_broken != nbroke:
-                vs.append(V("broken-runner", "classic-count", "%d workers raised from run(), %d broken-runner errors reported" % (nbroke, got_broken)))
+            if not nbroke <= got_broken <= nbroke + n_base:
+                vs.append(V("broken-runner", "classic-count", "%d workers raised from run() (and %d died of a non-Exception error), %d broken-runner errors reported" % (nbroke, n_base, got_broken)))
+            reports = " ".join(repr(sorted((e[2].get("details") or {}).items())) + repr(e[2].get("err")) for e in evs if e[0] == "addError" and e[1].id().startswith("broken-runner"))
+            for e in worker_log:
+                if e[1] == "raised" and not e[2] and "runner %d broke" % e[0] not in reports:
+                    vs.append(V("broken-runner", "classic-traceback", "worker %d raised RuntimeError('runner %d broke'); no broken-runner error mentions it: %.300s" % (e[0], e[0], reports)))
+                    break
             if spec["wrap_result"] and sorted(state.get("wrapped_first", wrapped)) != list(range(len(workers))):
                 vs.append(V("wrap_result", "calls", "wrap_result called with %r" % state.get("wrapped_first", wrapped)))
     if classic_result_fault and not any(v.clause == "deadlock" for v in vs):
@@ -494,6 +776,32 @@ def execute(spec, schedule=None):
 
 
 FLOOD = 600
+
+
+def attach_events(wid, i):
+    """The status() calls of an "attach" test: (keyword dicts, in order)."""
+    tid = "w%d.t%d" % (wid, i)
+    return [
+        dict(test_id=tid, test_status="inprogress"),
+        dict(test_id=tid, file_name="w%d.t%d.bin" % (wid, i), file_bytes=b"\x00\xff" + tid.encode(), mime_type="application/octet-stream", eof=False),
+        dict(test_id=tid, file_name="w%d.t%d.bin" % (wid, i), file_bytes=b"", eof=True),
+        dict(test_id=tid, file_name="w%d.t%d.txt" % (wid, i), file_bytes=b"caf\xc3\xa9", mime_type='text/plain; charset="utf8"', eof=True),
+        # no test id at all: a run-level attachment, an "exists" enumeration entry is next
+        dict(file_name="w%d.t%d.global" % (wid, i), file_bytes=b"g", mime_type="text/x-log", eof=True),
+        dict(test_id=tid + ".listed", test_status="exists", runnable=False),
+        dict(test_id=tid, test_status="success"),
+    ]
+
+
+def _leaves(suite_or_case):
+    try:
+        it = iter(suite_or_case)
+    except TypeError:
+        return [suite_or_case]
+    return [leaf for t in it for leaf in _leaves(t)]
+
+
+ATTACH_FIELDS = ("test_id", "test_status", "file_name", "file_bytes", "mime_type", "eof", "runnable")
 H_STATUS = {"success": "success", "error": "fail", "failure": "fail", "skip": "skip", "xfail": "xfail", "uxsuccess": "uxsuccess"}
 
 
@@ -510,13 +818,16 @@ def custom_dfs(ctx):
     thorough = ctx["tier"] == "thorough"
     w2 = [{"tests": ["success", "failure"], "raise_after": None}, {"tests": ["skip"], "raise_after": None}]
     wb = [{"tests": ["success"], "raise_after": 1}, {"tests": ["error"], "raise_after": None}]
-    configs = [("stream", w2, None, 1, 600), ("classic", w2, None, 1, 600), ("stream", w2, {"at": "make_tests", "k": 1}, 1, 500)]
+    ts0 = {"at": "thread_start", "k": 1, "base": True, "started": True}
+    configs = [("stream", w2, None, 1, 600), ("classic", w2, None, 1, 600), ("stream", w2, {"at": "make_tests", "k": 1}, 1, 500),
+               ("classic-own-stop", w2, ts0, 1, 300)]
     if thorough:
         configs = [("stream", w2, None, 2, 5000), ("classic", w2, None, 2, 5000), ("stream", wb, None, 2, 3000), ("classic", wb, None, 2, 3000),
                    ("stream", w2, {"at": "make_tests", "k": 1}, 2, 4000), ("stream", w2, {"at": "make_tests", "k": 2}, 2, 4000),
-                   ("stream", w2, {"at": "result", "k": 2}, 2, 4000), ("classic", w2, {"at": "make_tests", "k": 1}, 2, 4000)]
+                   ("stream", w2, {"at": "result", "k": 2}, 2, 4000), ("classic", w2, {"at": "make_tests", "k": 1}, 2, 4000),
+                   ("classic-own-stop", w2, ts0, 2, 3000), ("stream", w2, ts0, 2, 3000)]
     for suite, ws, fault, bound, max_runs in configs:
-        base = {"suite": suite, "workers": ws, "fault": fault, "wrap_result": True, "schedule": []}
+        base = {"suite": suite.split("-")[0], "workers": ws, "fault": fault, "wrap_result": "own_stop" if suite.endswith("own-stop") else True, "schedule": []}
         results = []
 
         def run_one(choices):
@@ -544,12 +855,60 @@ def _enum_flood():
                            "wrap_result": False, "second_run": False, "lazy": lazy and not fault, "failfast": False, "schedule": schedule}
 
 
+GRID_SCHEDULES = ([], [1] * 30, [0, 1, 2, 1, 0, 2] * 5, [2, 1] * 15)
+
+
+def _grid_spec(suite, tests, fault, schedule, **kw):
+    spec = {"suite": suite, "workers": [{"tests": list(t), "raise_after": None, "base": False} for t in tests], "fault": fault,
+            "wrap_result": "own_stop", "second_run": False, "eq_mode": "identity", "routes": "distinct", "own_route": "sub",
+            "lazy": False, "failfast": False, "tail": None, "schedule": list(schedule)}
+    spec.update(kw)
+    return spec
+
+
+def _enum_sites():
+    """Small complete grids for what random cases hit too rarely to be caught at every seed."""
+    # every place where the calling thread can be hit, both suites, three workers that keep their own stop flag
+    faults = [{"at": "thread_start", "k": k, "base": started, "started": started} for k in range(3) for started in (True, False)]
+    faults += [{"at": "main_wait", "k": k, "base": True} for k in (0, 1, 3)]
+    faults += [{"at": "make_tests", "k": k, "base": b} for k, b in ((1, True), (2, False), (3, True))]
+    for suite in ("stream", "classic"):
+        for fault in faults:
+            for schedule in GRID_SCHEDULES:
+                yield _grid_spec(suite, [["success", "failure"]] * 3, fault, schedule)
+    # route codes: the workers' none / shared / empty / distinct, raw events carrying "sub" or "" themselves; attachments
+    # and events without a test id; a broken runner among them
+    for routes in ("none", "shared", "empty", "distinct"):
+        for own in ("sub", ""):
+            for schedule in GRID_SCHEDULES[:2]:
+                spec = _grid_spec("stream", [["raw", "attach"], ["attach", "failure", "raw"], ["success"]], None, schedule, routes=routes, own_route=own, wrap_result=False)
+                spec["workers"][2]["raise_after"] = 1
+                yield spec
+    # nobody asked anybody to stop: failures, unexpected successes and a broken runner, then more tests
+    for suite in ("stream", "classic"):
+        for schedule in GRID_SCHEDULES:
+            for wrap in (False, "own_stop"):
+                spec = _grid_spec(suite, [["failure", "success", "success"], ["success", "uxsuccess", "success"], ["error"], ["success", "success", "success"]], None, schedule, wrap_result=wrap)
+                spec["workers"][2]["raise_after"] = 1
+                yield spec
+    # long-running forwarders under dense pre-emption (behaviour that depends on how many tests a forwarder has reported)
+    for seed in range(12):
+        yield _grid_spec("classic", [["failure", "success", "success"], ["success", "uxsuccess", "success"], ["success", "success", "success"]], None, [],
+                         wrap_result=False, tail={"seed": seed, "p": 2})
+
+
 def subchecks(tier):
     q = tier == "quick"
     return [
         Sub("random_schedules", run_case, s_case(), 3000 if q else 40000),
         Sub("event_flood", run_case, enum=_enum_flood, enum_complete=False,
             note="stream suite, one or two workers emitting 600 attachment events per test, eager and lazy make_tests, 3 schedules"),
+        Sub("site_and_route_grid", run_case, enum=_enum_sites, enum_complete=True,
+            note="(a) both suites x {interrupt / failure in Thread.start of worker 0..2, interrupt in the 1st/2nd/4th wait, make_tests raising "
+                 "after 1..3} x 4 schedules, workers with their own stop flag; (b) worker route codes none/shared/''/distinct x raw events "
+                 "routed 'sub' / '' x 2 schedules, with attachments, id-less events and a broken runner; (c) fault-free runs with failures "
+                 "and a broken runner x 4 schedules x plain / own-stop wrappers (no stop request); (d) classic, 3 workers x 3 tests, 12 dense "
+                 "pre-emption tails"),
         Sub("bounded_preemption_dfs", run_case, custom=custom_dfs,
             note="all schedules with <= k pre-emptions for 2-worker configurations (k=1 quick, k=2 thorough)"),
     ]
